@@ -1,3 +1,6 @@
+\* NOT registered in tools/propsd/C11.py: this configuration is EXPECTED TO FAIL.
+\* With the name check as written today (no `name # ".."`) TLC reports Inv violated for w = <<"..">>
+\* (valid = TRUE, inside = FALSE) -- the model-level counterexample of finding F11.
 SPECIFICATION Spec
 CONSTANTS
   MaxLen = 1
